@@ -11,7 +11,7 @@
    NotImplementedError).  `ideal_obs_*` (Spec/Frame.v) is a function of the rule, the pipeline
    definitions and the backend configuration only. *)
 From Coq Require Import NArith List Bool String.
-From PS Require Import Base.Chars Base.Outcome Model.History Spec.Frame Proofs.History15P Proofs.HistoryRefP Proofs.HistorySharingP.
+From PS Require Import Base.Chars Base.Outcome Model.History Spec.Frame Proofs.History15P Proofs.HistoryRefP Proofs.HistorySharingP Proofs.HistoryHintsP.
 Import ListNotations.
 
 (* convert(collection) after ANY history, on ANY backend of that history - shared pipeline objects
@@ -84,6 +84,16 @@ Theorem C15_state_restored : forall E ops,
      w_pvars w L = init_vars E (b_cls bk) (b_user bk) (b_opts bk) f).
 Proof. exact invariant_reachable. Qed.
 Print Assumptions C15_state_restored.
+
+(* loading a document after any history type-checks every modifier application against the annotation of the
+   modifier's OWN class (also for a registered subclass of a built-in modifier with a wider value type, whatever was
+   loaded before): the type-hint cache only ever holds, under a class, that class's own annotation *)
+Theorem C15_load_frame : forall E ops r,
+  let w := fst (run E init ops) in
+  o_res (out_obs (snd (step E w (OLoad r)))) = ideal_load E r /\
+  (forall e, In e (w_hints w) -> snd e = fst e).
+Proof. exact load_frame. Qed.
+Print Assumptions C15_load_frame.
 
 (* D18: init A, init B on the same user pipeline object, then A.convert_rule: index=default *)
 Theorem C15_reown_refuted :
